@@ -141,11 +141,35 @@ CHECKS["C16"] = dict(
     note=BASE + " The remaining Panic sites of the model are the 32-bit additions of pass 2, unreachable after pass 1's check (not proved).",
     tech="Coq proof of panic-freedom for evaluator/encoder/directives/pass 1 + isolated-process bounded-exhaustive and mutation runs", ref="3 C16")
 
+CHECKS["C08"] = dict(
+    text="Theorem C08_select (Props/C08.v): for every well-formed block tree (plain lines = ANY text that is not one of the six "
+         "conditional directives; blocks nested to any depth, any number of .elif arms, with or without .else), every assembly state "
+         "and every outcome, the line loop of the model - which skips by counting nested conditionals - run on the flattened text "
+         "returns exactly what the tree semantics prescribes: the first arm whose condition holds (conditions evaluated in the evolving "
+         "state, an .elif only when no earlier arm held), else the .else arm, and of all other arms nothing - their bodies are never "
+         "inspected. Mutual induction over node/nodes/arms with balanced-skip lemmas; errors and the label on an arm's own line "
+         "included. Proving it exposed a real defect of the first repair (nested conditional before an outer .elif), since fixed." + PROG,
+    note=BASE + " The tree semantics leaves a selected .macro / .exit line undefined (None). Search: blanking the unselected lines "
+         "must not change the result (bounded-exhaustive chains x truth assignments x nesting, garbage in unselected arms).",
+    tech="Coq proof (refinement of a block-tree semantics by mutual induction) + metamorphic search + differential correspondence", ref="3 C08")
+CHECKS["C18"] = dict(
+    text="PARTIAL. Theorems C18_build_fails / C18_success / C18_unwritable (Props/C18.v) over Model/Cli.v: a failed build creates "
+         "nothing and exits non-zero; a successful build with creatable outputs writes exactly the non-empty images to the -o/-e paths "
+         "or <dir>/<stem>.hex / .eep.hex, each file decoding (independent reader, by C07) to exactly the image, exit 0; an output that "
+         "cannot be created gives a non-zero exit. OS behaviour enters through the oracle can_create. The binary built from the tree is "
+         "run on 10 sources x all 8 option combinations x {writable, missing directory, path is a directory} (200 runs): exit status, "
+         "set of created/altered files, and every output file byte-identical to Hex.write of the image the library builds.",
+    note=BASE + " Signals, disk-full and races are not modelled; the Python oracle of ./check C18 mirrors Cli.cli_main.",
+    tech="Coq proof over a CLI model with an OS oracle (reusing the C07 round-trip theorem) + exhaustive option-matrix runs of the real binary",
+    ref="3 C18")
+
 NOT_APPLICABLE = {}
 IN_PROGRESS = ("machinery built and green on the current tree (./check %s: model-vs-implementation correspondence + oracle search + "
                "kernel-checked examples); not claimed until its unbounded theorem is in Props/%s.v")
-for _p in ("C02", "C08", "C09"):
+for _p in ("C02", "C09"):
     NOT_APPLICABLE[_p] = IN_PROGRESS % (_p, _p)
+NOT_APPLICABLE["C11"] = ("not built yet: needs the file-system model (Model/Fs) and the directory-tree harness; the technique applies "
+                         "(DESIGN.md section 3 C11) - no claim is made for it in this commit")
 PENDING = ("claimed in DESIGN.md, machinery not built yet in this commit; listed here so that nothing unbuilt is claimed "
            "(technique applies - see DESIGN.md section 3)")
 
